@@ -592,9 +592,12 @@ class RamStorage(Storage):
         return name in self.files
 
     def file_length(self, name):
-        if name not in self.files:
+        # One dictionary access: another thread's commit may remove the file
+        # between a membership test and the look-up
+        try:
+            return len(self.files[name])
+        except KeyError:
             raise NameError(name)
-        return len(self.files[name])
 
     def file_modified(self, name):
         return -1
@@ -621,9 +624,11 @@ class RamStorage(Storage):
         return f
 
     def open_file(self, name, **kwargs):
-        if name not in self.files:
+        try:
+            content = self.files[name]
+        except KeyError:
             raise NameError(name)
-        buf = memoryview_(self.files[name])
+        buf = memoryview_(content)
         return BufferFile(buf, name=name, **kwargs)
 
     def lock(self, name):
